@@ -557,7 +557,68 @@ fn check_yield_once(rec: &mut Rec, sim: &Sim) {
     }
 }
 
+/// aimed (seed-independent): a client has several requests yielded, `answered_before` of them are answered but the
+/// answers are still unflushed when it closes; the hang-up discards them. The connection must be held until the REST is
+/// answered too — a newcomer that reuses the descriptor number must never receive those late answers.
+pub fn c07_unflushed_answers_at_hangup(rec: &mut Rec, rng: &mut Rng, answered_before: usize, leave: usize) {
+    rec.case("routing-unflushed-at-hangup");
+    rec.nontrivial();
+    let mut cfg = Cfg::base("C07");
+    cfg.max_clients = 4;
+    cfg.reconnect = true;
+    let mut sim = Sim::new(rec, cfg);
+    let a = sim.connect(rec);
+    let _b = sim.connect(rec);
+    sim.poll(rec);
+    sim.poll(rec);
+    for _ in 0..2 {
+        sim.plan_request(rng, a);
+    }
+    sim.send_next(rec, rng, a);
+    while !sim.plans[a].outq.is_empty() {
+        sim.send_next(rec, rng, a);
+    }
+    for _ in 0..4 {
+        sim.poll(rec);
+    }
+    for _ in 0..answered_before {
+        if let Some(idx) = sim.w.held.iter().position(|h| h.tag.starts_with(&format!("/c{}/", a))) {
+            sim.respond(rec, rng, idx);
+        }
+    }
+    match leave {
+        0 => sim.w.close(rec, a),
+        _ => sim.w.shutdown(rec, a, Shutdown::Both),
+    }
+    sim.poll(rec);
+    sim.poll(rec);
+    if leave != 0 {
+        sim.w.close(rec, a);
+        sim.poll(rec);
+    }
+    let j = sim.connect(rec);
+    sim.poll(rec);
+    sim.send_next(rec, rng, j);
+    sim.poll(rec);
+    while let Some(idx) = sim.w.held.iter().position(|h| h.tag.starts_with(&format!("/c{}/", a))) {
+        sim.respond(rec, rng, idx);
+        sim.poll(rec);
+    }
+    for _ in 0..3 {
+        sim.poll(rec);
+    }
+    sim.w.client_read(rec, j);
+    sim.settle(rec, rng);
+    common_checks(rec, &mut sim, "C07");
+    sim.w.teardown();
+}
+
 pub fn c07(rec: &mut Rec, rng: &mut Rng, thorough: bool) {
+    for answered_before in 0..=2 {
+        for leave in 0..2 {
+            c07_unflushed_answers_at_hangup(rec, rng, answered_before, leave);
+        }
+    }
     let n = if thorough { 4000 } else { 160 };
     for k in 0..n {
         let mut cfg = Cfg::base("C07");
